@@ -259,3 +259,20 @@ func ZZ_C23_EthBlocksToWaitRange() {
 		zzsym.Assert(c.depthRule(), "accepted deposit: bestHeight >= height and bestHeight-height+1 >= BlocksToWait, for every 64-bit BlocksToWait")
 	}
 }
+
+func ZZ_C23_Dbg1() {
+	db := zzNewCacheDB()
+	ns := zzNative(db, nil)
+	btw := zzsym.U64("blocksToWait")
+	side_chain_manager.PutSideChain(ns, &side_chain_manager.SideChain{ChainId: 2, Router: 2, Name: "evm", BlocksToWait: btw, CCMCAddress: zzsym.Bytes("ccmc", 20)})
+	zzsym.Cover("a")
+	sc, err := side_chain_manager.GetSideChain(ns, 2)
+	zzsym.Assert(err == nil && sc.BlocksToWait == btw, "dbg")
+	zzsym.Cover("b")
+}
+
+func ZZ_C23_Dbg2() {
+	c := zzSetup()
+	zzsym.Cover("a")
+	_ = c
+}
